@@ -7,6 +7,8 @@ import (
 	"fmt"
 	"io"
 	"strings"
+	"sync"
+	"sync/atomic"
 	"testing"
 
 	"github.com/aperturerobotics/util/commonprefix"
@@ -349,6 +351,66 @@ func TestC19Prefix(t *testing.T) {
 
 func TestC19Prng(t *testing.T) {
 	drive(t, "seed = 0..3 byte slices; two readers from equal seeds read with different generated chunkings, compared with each other and with the little-endian bytes of a third source; non-trivial iff some chunk size is not a multiple of 8 and total > 8; distinct by input", genPrng, checkPrng)
+}
+
+// PrngParCase: goroutines build sources from the same few seeds at the same time.
+type PrngParCase struct {
+	Seeds  [][][]byte `json:"seeds"`
+	G      int        `json:"g"`
+	Rounds int        `json:"rounds"`
+}
+
+func genPrngPar(t *rapid.T) PrngParCase {
+	seed := rapid.SliceOfN(rapid.SliceOfN(rapid.Byte(), 0, 8), 0, 3)
+	return PrngParCase{
+		Seeds:  rapid.SliceOfN(seed, 1, 4).Draw(t, "seeds"),
+		G:      rapid.IntRange(2, 16).Draw(t, "g"),
+		Rounds: rapid.SampledFrom([]int{50, 200, 1000, 3000}).Draw(t, "rounds"),
+	}
+}
+
+// checkPrngPar: "equal seed data gives equal streams" must also hold when the
+// sources are built concurrently (the constructors share no documented state).
+func checkPrngPar(v *ev.Verdict, c PrngParCase) {
+	guard(v, "prng:panic", func() {
+		ref := make([][4]uint64, len(c.Seeds))
+		for i, sd := range c.Seeds {
+			src := prng.BuildSeededRand(sd...)
+			for k := range ref[i] {
+				ref[i][k] = src.Uint64()
+			}
+		}
+		var wg sync.WaitGroup
+		var bad atomic.Int64
+		for g := 0; g < c.G; g++ {
+			wg.Add(1)
+			go func() {
+				defer wg.Done()
+				for r := 0; r < c.Rounds && bad.Load() == 0; r++ {
+					i := (g + r) % len(c.Seeds)
+					src := prng.BuildSeededRand(c.Seeds[i]...)
+					for k := range ref[i] {
+						if src.Uint64() != ref[i][k] {
+							bad.Store(int64(i) + 1)
+							return
+						}
+					}
+				}
+			}()
+		}
+		wg.Wait()
+		if b := bad.Load(); b != 0 {
+			v.Add(P, "prng:source-diverges", "a source built from seed set %d while %d goroutines build sources concurrently differs from the source built from the same seed data before", b-1, c.G)
+		}
+	})
+	if c.G >= 2 {
+		v.SetNT(P)
+		v.Class("prng-concurrent-construction")
+	}
+}
+
+func TestC19PrngPar(t *testing.T) {
+	drive(t, "1..4 seed sets, 2..16 goroutines each building 50..3000 sources from them in parallel; oracle: the first four words of every source equal those of a source built from the same seed data sequentially; non-trivial iff >= 2 goroutines; distinct by input", genPrngPar, checkPrngPar)
 }
 
 var _ = strings.Join
